@@ -455,6 +455,17 @@ class UserActions(object):
           continue
       recalc_cols.add(col_id)
 
+    # As for updates, a data-cleaning column (one that depends on itself) does get to process an
+    # explicit value, so undo the exemption that docactions.py makes for explicit values.
+    if not table_id.startswith('_grist_'):
+      for col_id in column_values:
+        col_obj = table.get_column(col_id)
+        if col_obj.is_formula() or not col_obj.has_formula():
+          continue
+        col_rec = self._docmodel.columns.lookupOne(tableId=table_id, colId=col_id)
+        if col_rec.recalcOnChangesToSelf:
+          self._engine.prevent_recalc(col_obj.node, filled_row_ids, should_prevent=False)
+
     self._engine.invalidate_records(table_id, filled_row_ids, data_cols_to_recompute=recalc_cols)
 
     return filled_row_ids
